@@ -252,6 +252,26 @@ func (o *orC04) checkPublished(e *ZKEvent) {
 					answered = true
 				}
 			}
+			// the master is gone at the moment of the write and the manager has not heard from it
+			// since it last touched another server in this iteration
+			if msv := s.mysql.servers[m.master]; answered && msv != nil && (!msv.Up || s.net.blocked(srcHostOf(e.Inc), m.master)) {
+				var lastMut uint64
+				for _, x := range it.sql {
+					if x.Src == it.inc && x.Dst != m.master && x.Mutating && x.Seq <= e.Seq {
+						lastMut = x.Seq
+					}
+				}
+				heard := false
+				for _, x := range it.sql {
+					if x.Src == it.inc && x.Dst == m.master && x.toldOK() && x.Seq > lastMut && x.Seq <= e.Seq {
+						heard = true
+					}
+				}
+				if lastMut > 0 && !heard {
+					m.probe("c04_eviction_with_master_gone")
+					m.violate("C04", "evict_master_unreachable", "members-evicted-after-master-became-unreachable", fmt.Sprintf("%s shrank the active list %v -> %s while master %s is unreachable; it had not heard from the master since it changed the evicted replicas", e.Inc, o.prevList, e.Data, m.master))
+				}
+			}
 			if !answered {
 				m.violate("C04", "evict_master_unreachable", "members-evicted-while-master-unreachable", fmt.Sprintf("%s shrank the active list %v -> %s in an iteration in which master %s never answered it", e.Inc, o.prevList, e.Data, m.master))
 			}
